@@ -151,7 +151,6 @@ def new_list(st, items, et=None):
         # element type fixed on first use: declared local types or later coercion
         et = T.Ty('unknown')
         ref = st.new_ref('list')
-        st.heap['$llen'] = z3.Store(st.llen_arr(), ref, z3.IntVal(0))
         return Val(T.Ty('list', (et,)), ref)
     ref = st.new_ref('list')
     st.list_store(ref, et, seq_literal(st, items, et))
@@ -168,7 +167,7 @@ def list_append(st, lst, x):
     if lst.t.args[0].kind == 'unknown':
         st.init_empty(lst, T.TList(x.t))
     et = lst.t.args[0]
-    E.check_or_raise(st, lst.z != 0, 'AttributeError')
+    E.check_or_raise(st, z3.And(lst.z != 0, is_real_list(lst.z)), 'AttributeError')
     E.check_frame_contents(st, lst.z)
     s = st.list_seq(lst.z, et)
     st.list_store(lst.z, et, SeqV(z3.Store(s.arr, s.n, st.coerce(x, et).z), s.n + 1))
@@ -177,13 +176,25 @@ def list_append(st, lst, x):
 def list_extend(st, lst, other):
     E = _ex()
     et = lst.t.args[0]
-    E.check_or_raise(st, lst.z != 0, 'AttributeError')
+    E.check_or_raise(st, z3.And(lst.z != 0, is_real_list(lst.z)), 'AttributeError')
     E.check_frame_contents(st, lst.z)
     s = st.list_seq(lst.z, et)
     o, oet = seq_of(st, other)
     if oet != et:
         raise Undecided('extend with different element type %r vs %r' % (oet, et))
     st.list_store(lst.z, et, seq_concat(st, s, o, T.sort_of(et)))
+
+
+def is_real_list(ref):
+    return TYPEOF(ref) == R.CLASSES['list'].tag
+
+
+def new_tuple_obj(st, seq, et):
+    """A Python tuple of symbolic length stored where a list is expected: an immutable
+    sequence object (class tag tuple) in the heap."""
+    ref = st.new_ref('tuple')
+    st.list_store(ref, et, seq)
+    return Val(T.TList(et), ref)
 
 
 def norm_index(st, idx, n):
@@ -226,6 +237,9 @@ def get_item(st, obj, idx):
         v = Val(vt, z3.Select(mp, kk.z))
         st.assume_type(v) if not st.spec else None
         return v
+    if k == 'mapv':
+        kt, vt = obj.t.args
+        return Val(vt, z3.Select(obj.z, st.coerce(idx, kt).z))
     if k in ('str', 'bytes'):
         n = z3.Length(obj.z)
         i = norm_index(st, idx, n) if not st.spec else idx.z
@@ -279,6 +293,7 @@ def set_item(st, obj, idx, val):
     E = _ex()
     if obj.t.kind == 'list':
         et = obj.t.args[0]
+        E.check_or_raise(st, is_real_list(obj.z), 'TypeError')
         E.check_frame_contents(st, obj.z)
         s = st.list_seq(obj.z, et)
         i = norm_index(st, idx, s.n)
@@ -305,6 +320,7 @@ def del_item(st, obj, idx):
     E = _ex()
     if obj.t.kind == 'list':
         et = obj.t.args[0]
+        E.check_or_raise(st, is_real_list(obj.z), 'TypeError')
         E.check_frame_contents(st, obj.z)
         s = st.list_seq(obj.z, et)
         i = norm_index(st, idx, s.n)
@@ -377,7 +393,11 @@ def set_of_seq(st, s, et, fn=None, ft=None):
         rt = et
         elem = lambda kk: z3.Select(s.arr, kk)
     else:
-        probe = E.apply_fn(st, fn, [Val(et, z3.Select(s.arr, k))])
+        st.qdepth += 1
+        try:
+            probe = E.apply_fn(st, fn, [Val(et, z3.Select(s.arr, k))])
+        finally:
+            st.qdepth -= 1
         rt = probe.t
         elem = lambda kk: z3.substitute(probe.z, (k, kk))
     rs = T.sort_of(rt)
@@ -715,7 +735,8 @@ _GLOBAL_FUNCS = ('len', 'isinstance', 'set', 'list', 'dict', 'tuple', 'sorted', 
                  'sorted_by', 'distinct_by', 'iff', 'ite', 'count_where', 'no_alias', 'allocated',
                  'unchanged', 'index_of', 'str_index', 'subseq', 'substr', 'str_len', 'setv',
                  'union_of', 'same_elems', 'is_fresh', 'seq_map_eq', 'let', 'emp', 'char_at',
-                 'is_digit_str', 'str_to_int', 'concat_seq')
+                 'is_digit_str', 'str_to_int', 'concat_seq', 'mkseq', 'is_list', 'store', 'dict_has', 'dict_get',
+                 'dict_keys', 'implies_all', 'remove_positions', 'trig')
 
 
 def lookup_global(st, nm):
@@ -723,6 +744,8 @@ def lookup_global(st, nm):
         return Val(T.FN, FnV('predicate', nm))
     if nm in _GLOBAL_FUNCS:
         return Val(T.FN, FnV('builtin', nm))
+    if nm == '__name__':
+        return Val(T.STR, z3.StringVal('module'))
     if nm in R.CLASSES:
         return Val(T.TYPEOBJ, FnV('class', nm))
     from . import calls
@@ -827,6 +850,7 @@ def narrowing(st, test):
             return out
         if len(names) == 1:
             out[True].append((nm, names[0]))
+        out[False].append((nm, ('not', tuple(names))))
         return out
     if isinstance(test, ast.Compare) and len(test.ops) == 1 and isinstance(test.left, ast.Name) \
             and isinstance(test.comparators[0], ast.Constant) and test.comparators[0].value is None:
@@ -864,11 +888,34 @@ def isinstance_classes(st, node):
     return [exc_class_name(st, node)]
 
 
+def E_unboxed(st, v, a):
+    return _ex().unboxed(st, v, a)
+
+
 def apply_narrow(st, nm, what):
     v = st.locals.get(nm)
     if v is None or v.t.kind != 'union' or not v.t.args:
         return
     alts = list(v.t.args)
+    if isinstance(what, tuple) and what[0] == 'not':
+        def matches(a, nm):
+            if nm in ('Mapping', 'dict'):
+                return a.kind == 'dict'
+            if nm in ('Sequence',):
+                return a.kind in ('list', 'str', 'bytes')
+            if nm in _PRIM:
+                return a == _PRIM[nm]
+            if nm in ('list', 'set'):
+                return a.kind == nm
+            return a.kind == 'ref' and R.is_subclass(a.name, nm)
+        rest = [a for a in alts if not any(matches(a, nm) for nm in what[1])]
+        # only sound when every removed alternative is fully covered by the test
+        if len(rest) == 1:
+            a = rest[0]
+            st.locals[nm] = E_unboxed(st, v, a)
+        elif rest and len(rest) < len(alts):
+            st.locals[nm] = Val(T.TUnion(*rest), v.z)
+        return
     if what == 'none':
         st.locals[nm] = Val(T.NONE, T.PyVal.none)
         return
@@ -878,6 +925,17 @@ def apply_narrow(st, nm, what):
             st.locals[nm] = Val(rest[0], T.unbox(rest[0], v.z))
         else:
             st.locals[nm] = Val(T.TUnion(*rest), v.z)
+        return
+    if what in ('Mapping', 'dict'):
+        cands = [a for a in alts if a.kind == 'dict']
+        if len(cands) == 1:
+            st.locals[nm] = Val(cands[0], T.unbox(cands[0], v.z))
+        return
+    if what in ('Sequence', 'list'):
+        cands = [a for a in alts if a.kind == 'list']
+        others = [a for a in alts if a.kind in ('str', 'bytes')]
+        if len(cands) == 1 and (what == 'list' or not others):
+            st.locals[nm] = Val(cands[0], T.unbox(cands[0], v.z))
         return
     # class name
     if what in R.CLASSES:
@@ -960,6 +1018,7 @@ def list_comprehension(st, n):
     saved = dict(st.locals)
     was_spec = st.spec
     st.spec = True
+    st.qdepth += 1
     try:
         E.assign_target(st, g.target, Val(et, z3.Select(s.arr, k)))
         probe = E.ev(st, n.elt)
@@ -967,6 +1026,7 @@ def list_comprehension(st, n):
     finally:
         st.locals = saved
         st.spec = was_spec
+        st.qdepth -= 1
     rt = probe.t
     rs = T.sort_of(rt)
     r = seq_fresh(st, rs, 'lc')
